@@ -164,7 +164,11 @@ impl MetaStore {
         partition: PartitionID,
         column_name: &str,
     ) {
-        self.partitions[table_name][&partition].mark_subpartition_as_loaded(column_name);
+        // The partition may have been merged away by a compaction while it was being loaded for a
+        // query that still holds the old snapshot; there is nothing left to mark then.
+        if let Some(metadata) = self.partitions.get(table_name).and_then(|p| p.get(&partition)) {
+            metadata.mark_subpartition_as_loaded(column_name);
+        }
     }
 
     pub fn add_wal_segment(&mut self) -> u64 {
